@@ -188,9 +188,9 @@ def run(rep: Report, tier: str) -> None:
     where = loc(bm.replay)
 
     # ---------------------------------------------------------------- C07.a
-    ra = rep.rule("C07.a", "effects of the replay per transaction class equal the statement's flow table", floor=3)
-    rb = rep.rule("C07.b", "in every branch, for every slot: delta(final) = delta(acquired) + delta(received) - delta(sent); all start at zero", floor=6)
-    rc = rep.rule("C07.c", "every touched account is a key of final; one Balance per key with name-aligned figures", floor=6)
+    ra = rep.rule("C07.a", "effects of the replay per transaction class equal the statement's flow table", floor=3, follows_calls=True)
+    rb = rep.rule("C07.b", "in every branch, for every slot: delta(final) = delta(acquired) + delta(received) - delta(sent); all start at zero", floor=6, follows_calls=True)
+    rc = rep.rule("C07.c", "every touched account is a key of final; one Balance per key with name-aligned figures", floor=6, follows_calls=True)
     spec = spec_effects(bm.tx_var)
     for kind in ("in", "intra", "out"):
         normal = [p for p in bm.paths_for(kind) if p.exit in ("fall", "continue")]  # both reach the back edge: a "continue" path is a completed replay of the transaction too
